@@ -290,11 +290,15 @@ def read_env(src, expr, skip_envs=(), tolerance=0, mode=MODE_NON_MATH):
             if name == 'end':
                 break
         contents.append(read_expr(src, skip_envs=skip_envs, tolerance=tolerance, mode=mode))
-    error = not src.hasNext() or not args or args[0].string != expr.name
+    error = not src.hasNext() or not args or \
+        not isinstance(args[0], BraceGroup) or args[0].string != expr.name
     if error and tolerance == 0:
         unclosed_env_handler(src, expr, src.peek((0, 6)))
     elif not error:
-        src.forward(5)
+        # consume exactly the `\end`, an optional spacer and the name group
+        src.forward(2)
+        read_spacer(src)
+        read_arg(src, next(src), tolerance=tolerance, mode=mode)
     expr.append(*contents)
     return expr
 
